@@ -622,7 +622,9 @@ func parseDurationSTL(i string, framerate int) (d time.Duration, err error) {
 	}
 
 	// Set duration
-	d = time.Duration(hours)*time.Hour + time.Duration(minutes)*time.Minute + time.Duration(seconds)*time.Second + time.Duration(1e9*frames/framerate)*time.Nanosecond
+	// The frame is converted to the first nanosecond that belongs to it (rounding up), otherwise
+	// writing the duration again would yield the previous frame for framerates such as 30
+	d = time.Duration(hours)*time.Hour + time.Duration(minutes)*time.Minute + time.Duration(seconds)*time.Second + time.Duration((1e9*frames+framerate-1)/framerate)*time.Nanosecond
 	return
 }
 
@@ -825,7 +827,7 @@ func formatDurationSTLBytes(d time.Duration, framerate int) (o []byte) {
 
 // parseDurationSTLBytes parses a STL duration in bytes
 func parseDurationSTLBytes(b []byte, framerate int) time.Duration {
-	return time.Duration(uint8(b[0]))*time.Hour + time.Duration(uint8(b[1]))*time.Minute + time.Duration(uint8(b[2]))*time.Second + time.Duration(1e9*int(uint8(b[3]))/framerate)*time.Nanosecond
+	return time.Duration(uint8(b[0]))*time.Hour + time.Duration(uint8(b[1]))*time.Minute + time.Duration(uint8(b[2]))*time.Second + time.Duration((1e9*int(uint8(b[3]))+framerate-1)/framerate)*time.Nanosecond
 }
 
 type stlCharacterHandler struct {
